@@ -655,7 +655,9 @@ pub fn run_prop<P: Prop>(p: &P, tier: Tier, seed: u64, fuzz_stats: Option<Value>
         "wall_s": t0.elapsed().as_secs_f64(),
         "violations": nviol,
     });
-    let ev_dir = root.join("evidence");
+    // sensitivity experiments (mutants, seeded changes) run against a MODIFIED /repo: their evidence must not
+    // overwrite the committed evidence of the unchanged tree, so they redirect it (VERIF_EVIDENCE_DIR)
+    let ev_dir = std::env::var("VERIF_EVIDENCE_DIR").map(PathBuf::from).unwrap_or_else(|_| root.join("evidence"));
     let _ = std::fs::create_dir_all(&ev_dir);
     let mut ev = ev;
     // configuration axis (C18): embed the summary of the run in the other build configuration
